@@ -48,3 +48,12 @@ Theorem restart_reachable c s : reach c s -> wg s = 0 -> running s = false -> re
 Proof.
   intros R Z Rn. destruct (restart_fresh _ _ R Z Rn) as (St & _). eapply reach_step; eauto.
 Qed.
+
+(* the cause named by a stopping window: a Stop call, or the error the reader's Recv returned *)
+Theorem stop_cause_spec s l k :
+  stop_cause s l k <-> (exists n, l = LRelStop n /\ k = SCStop) \/ (l = LRelRead /\ rd s = RHold (FErr k)).
+Proof.
+  split.
+  - intros [n|k0 H]; [left; eauto|right; auto].
+  - intros [(n & -> & ->)|(-> & H)]; constructor; auto.
+Qed.
